@@ -61,7 +61,14 @@ S9 = ("{g0} = 1\n\n\ndef fn({p0}):\n    from xlibmod import tool, {imp}\n    {l0
       "    return {l0} + {p0} + {u0} + {imp}\n\n\nprint(fn(1), {g0})\n")
 S9_HOLES = {"g0": ["a", "b"], "p0": ["a", "b"], "l0": ["a", "b", "c"], "u0": ["a", "b"], "imp": ["late", "a"]}
 
-SCHEMAS = {"S9": (S9, S9_HOLES), "S8": (S8, S8_HOLES), "S6": (S6, S6_HOLES), "S7": (S7, S7_HOLES), "S1": (S1, S1_HOLES), "S2": (S2, S2_HOLES), "S3A": (S3A, S3A_HOLES), "S3B": (S3B, S3B_HOLES), "S3C": (S3C, S3C_HOLES),
+# header expressions (defaults, annotations, decorator arguments) that span several physical lines and
+# mention names which the function also binds: they are evaluated in the enclosing scope
+S10 = ("{g0} = 2\n{g1} = 3\n\n\ndef deco(v):\n    return lambda f: f\n\n\n@deco([\n    {u2},\n])\ndef fn({p0}, d=[\n        {u0},\n        {u0} * 2,\n], {p1}=5, *, k: {ann} = (\n        {u1}\n)) -> [\n    {u2}]:\n"
+       "    {l0} = {p0}\n    return {l0} + len(d) + d[0] + {p1} + k\n\n\nprint(fn(1), fn(1, {p1}=2), {g0}, {g1})\n")
+S10_HOLES = {"g0": ["a", "b"], "g1": ["b", "c"], "p0": ["a", "b"], "u0": ["a", "b"], "p1": ["a", "b", "c"], "u1": ["a", "b", "c"], "ann": ["int", "{g0}.__class__"],
+             "l0": ["a", "c"], "u2": ["a", "b", "c"]}
+
+SCHEMAS = {"S10": (S10, S10_HOLES), "S9": (S9, S9_HOLES), "S8": (S8, S8_HOLES), "S6": (S6, S6_HOLES), "S7": (S7, S7_HOLES), "S1": (S1, S1_HOLES), "S2": (S2, S2_HOLES), "S3A": (S3A, S3A_HOLES), "S3B": (S3B, S3B_HOLES), "S3C": (S3C, S3C_HOLES),
            "S3D": (S3D, S3D_HOLES), "S3E": (S3E, S3E_HOLES), "S4": (S4, S4_HOLES), "S5": (S5, S5_HOLES)}
 
 
